@@ -6,7 +6,7 @@
 From Coq Require Import List NArith ZArith QArith Qcanon Bool Lia.
 From ACB Require Import Base.Outcome Base.QcExtra Base.Arith Model.Tx Model.Ledger Model.Sfl
      Model.DeltaList Model.App Model.Summary Proofs.Tactics Proofs.C15Full Proofs.C04Sum
-     Proofs.RenderProps Proofs.C01Refine Proofs.SummaryProps Proofs.C10Scan Proofs.C10Sim Proofs.C10Cut.
+     Proofs.RenderProps Proofs.C01Refine Proofs.SummaryProps Proofs.C10Scan Proofs.C10Sim Proofs.C10Cut Proofs.C04Inv.
 Import ListNotations.
 Local Open Scope Qc_scope.
 
@@ -77,6 +77,37 @@ Proof.
     rewrite (delta_tx_eq _ _ _ _ _ _ _ Ed). rewrite <- !app_assoc. reflexivity.
 Qed.
 
+(* the ledger state stays well formed along an accepted run *)
+Lemma step_ok bef t aft st d inj st1 :
+  delta_for_tx exact bef t aft st = Ok (d, inj) -> set_latest exact st (t_af t) (d_post d) = Ok st1 ->
+  st_ok st -> st_ok st1.
+Proof.
+  intros Ed Es Hok. destruct (delta_for_tx_ok exact _ _ _ _ _ _ Ed Hok) as [_ (Hs & _)].
+  exact (set_latest_ok exact _ _ _ _ Es Hok Hs).
+Qed.
+Lemma run_injected_ok inj : forall bef st aft ds b st',
+  run_injected exact bef st inj aft = (ds, b, st', None) -> st_ok st -> st_ok st'.
+Proof.
+  induction inj as [|t inj IH]; intros bef st aft ds b st' H Hi; cbn [run_injected] in H.
+  - inversion H; subst. exact Hi.
+  - destruct (delta_for_tx exact bef t (inj ++ aft) st) as [[d i]| |] eqn:Ed; try discriminate.
+    destruct (set_latest exact st (t_af t) (d_post d)) as [st1| |] eqn:Es; try discriminate.
+    destruct (run_injected exact (t :: bef) st1 inj aft) as [[[ds0 b0] s0] o0] eqn:Er.
+    inversion H; subst. eapply IH; [exact Er|]. eapply step_ok; eassumption.
+Qed.
+Lemma run_part_ok l1 : forall bef st l2 ds b st',
+  run_part exact bef st l1 l2 = (ds, b, st', None) -> st_ok st -> st_ok st'.
+Proof.
+  induction l1 as [|t l IH]; intros bef st l2 ds b st' H Hi; cbn [run_part] in H.
+  - inversion H; subst. exact Hi.
+  - destruct (delta_for_tx exact bef t (l ++ l2) st) as [[d inj]| |] eqn:Ed; try discriminate.
+    destruct (set_latest exact st (t_af t) (d_post d)) as [st1| |] eqn:Es; try discriminate.
+    destruct (run_injected exact (t :: bef) st1 inj (l ++ l2)) as [[[dsi b1] st2] o1] eqn:Ei.
+    destruct o1; [discriminate|].
+    destruct (run_part exact b1 st2 l l2) as [[[ds' b2] st3] o'] eqn:Er. inversion H; subst.
+    eapply IH; [exact Er|]. eapply run_injected_ok; [exact Ei|]. eapply step_ok; eassumption.
+Qed.
+
 Definition gooddelta (regof : N -> bool) (d : delta) : Prop := goodtx regof (d_tx d).
 
 Section Tail.
@@ -107,13 +138,14 @@ Section Tail.
   (* ---------------------------------------------------------------- the later rows *)
   Lemma later_sim T : forall D1 D2 st1 st2 dsT,
     Forall2 row_sim D2 D1 -> srel regof st1 st2 -> Forall spec_nz T ->
+    st_ok st1 -> Forall sell_pos T ->
     run_loop exact (D1 ++ B1) st1 T = (dsT, None) -> Forall (wcond B1 B2) dsT ->
     Forall (gooddelta regof) dsT ->
     run_loop exact (D2 ++ B2) st2 T = (dsT, None).
   Proof.
-    induction T as [|t T IH]; intros D1 D2 st1 st2 dsT HD HR Hnz H HW HG; cbn [run_loop] in *.
+    induction T as [|t T IH]; intros D1 D2 st1 st2 dsT HD HR Hnz Hok Hsp H HW HG; cbn [run_loop] in *.
     - exact H.
-    - apply Forall_cons_iff in Hnz as [Hnt Hnz].
+    - apply Forall_cons_iff in Hnz as [Hnt Hnz]. apply Forall_cons_iff in Hsp as [Hspt Hsp].
       destruct (delta_for_tx exact (D1 ++ B1) t T st1) as [[d inj]| |] eqn:Ed; try discriminate.
       destruct (set_latest exact st1 (t_af t) (d_post d)) as [st1a| |] eqn:Es; try discriminate.
       destruct (run_injected exact (t :: D1 ++ B1) st1a inj T) as [[[dsi b1] st1b] o] eqn:Ei.
@@ -129,13 +161,15 @@ Section Tail.
         clear -Hsf HGi. induction dsi as [|x r IHr]; cbn [map] in *; constructor.
         - split; [exact (Forall_inv Hsf) | exact (Forall_inv HGi)].
         - apply IHr; [exact (Forall_inv_tail HGi) | exact (Forall_inv_tail Hsf)]. }
-      rewrite (delta_for_tx_sim regof (D2 ++ B2) (D1 ++ B1) t T T st2 st1 d inj HR HGd Hnt Ed (FwdEq_refl _ _)).
+      assert (Hok1b : st_ok st1b).
+      { eapply run_injected_ok; [exact Ei|]. exact (step_ok _ _ _ _ _ _ _ Ed Es Hok). }
+      rewrite (delta_for_tx_sim regof (D2 ++ B2) (D1 ++ B1) t T T st2 st1 d inj HR HGd Hnt Hok Hspt Ed (FwdEq_refl _ _)).
       + destruct (set_latest_srel _ _ _ _ _ _ HR Es) as (st2a & Es2 & HRa). rewrite Es2.
         assert (HD' : Forall2 row_sim (t :: D2) (t :: D1)) by (constructor; [apply row_sim_refl | exact HD]).
         destruct (injected_sim inj Hinj (t :: D1) (t :: D2) st1a st2a T T
                     dsi b1 st1b HD' HRa Ei) as (D1' & D2' & st2b & E & Eb & HD2 & HR2).
         cbn [app] in E. rewrite E. subst b1.
-        rewrite (IH D1' D2' st1b st2b ds HD2 HR2 Hnz Er HWr HGr). reflexivity.
+        rewrite (IH D1' D2' st1b st2b ds HD2 HR2 Hnz Hok1b Hsp Er HWr HGr). reflexivity.
       + intros Hs dflt adj s. destruct (HW1 Hs) as [Ho1 Ho2]. apply bwd_same; assumption.
       + intros Hs Hl dflt adj s s1 Hb. eapply bwd_prefix; [exact HD | exact (HW2 Hs Hl) | exact Hb].
   Qed.
@@ -197,7 +231,7 @@ Proof.
       eapply IH; eassumption.
 Qed.
 
-Definition sell_pos (t : tx) : Prop := match t_act t with Sell sh _ _ _ _ _ => 0 < sh | _ => True end.
+(* [sell_pos] (a sale sells a positive number of shares) is defined in C10Sim.v *)
 
 Section Kept.
   Variables B1 B2 T : list tx.
@@ -233,6 +267,7 @@ Section Kept.
 
   Lemma kept_sim K : forall D1 D2 st1 st2 dsK b1 st1' K',
     Forall2 row_sim D2 D1 -> srel regof st1 st2 -> Forall spec_nz K -> Forall sell_pos K ->
+    st_ok st1 ->
     run_part exact (D1 ++ B1) st1 K T = (dsK, b1, st1', None) ->
     keep_all dsK = Ok K' -> Forall (wcond B1 B2) dsK -> Forall (gooddelta regof) dsK ->
     exists dsK' D1' D2' st2',
@@ -240,7 +275,7 @@ Section Kept.
       /\ b1 = D1' ++ B1 /\ Forall2 row_sim D2' D1' /\ srel regof st1' st2'
       /\ map d_post dsK' = map d_post dsK /\ map d_gain dsK' = map d_gain dsK.
   Proof.
-    induction K as [|t K IH]; intros D1 D2 st1 st2 dsK b1 st1' K' HD HR Hnz Hsp H Hk HW HG; cbn [run_part] in H.
+    induction K as [|t K IH]; intros D1 D2 st1 st2 dsK b1 st1' K' HD HR Hnz Hsp Hok H Hk HW HG; cbn [run_part] in H.
     - inversion H; subst. cbn in Hk. inversion Hk; subst K'. cbn [run_part].
       exists [], D1, D2, st2. split; [reflexivity|]. split; [reflexivity|]. split; [exact HD|].
       split; [exact HR|]. split; reflexivity.
@@ -289,7 +324,7 @@ Section Kept.
         - unfold keep_delta in Ekd. rewrite Esfl, Etx in Ekd. inversion Ekd; subst kd. clear Ekd.
           pose proof (delta_for_tx_noinj _ _ _ _ _ _ _ Ed Esfl) as Hi. clear E1. subst inj.
           exists d. split; [|repeat split; apply row_sim_refl].
-          apply (delta_for_tx_sim regof (D2 ++ B2) (D1 ++ B1) t ([] ++ K'' ++ T) (K ++ T) st2 st1 d [] HR HGd Hnt Ed HFw).
+          apply (delta_for_tx_sim regof (D2 ++ B2) (D1 ++ B1) t ([] ++ K'' ++ T) (K ++ T) st2 st1 d [] HR HGd Hnt Hok Hspt Ed HFw).
           + intros Hs. rewrite Esfl in Hs. contradiction.
           + intros _ Hl dflt adj s s1 Hb. eapply bwd_prefix; [exact HD | exact (HW2 eq_refl Hl) | exact Hb]. }
       destruct Hrow as (d2 & Ed2 & Ep2 & Eg2 & Hsim & Haf2).
@@ -297,7 +332,9 @@ Section Kept.
       destruct (explicit_inj inj Hinj (t :: D1) (kd :: D2) st1a st2a (K ++ T) (K'' ++ T) dsi bi st1b HD' HRa Ei)
         as (D1a & D2a & st2b & Einj & Eb & HDa & HRb).
       subst bi.
-      destruct (IH D1a D2a st1b st2b ds' b1 st1' K'' HDa HRb Hnz Hsp Er Ek HWr HGr)
+      assert (Hok1b : st_ok st1b).
+      { eapply run_injected_ok; [exact Ei|]. exact (step_ok _ _ _ _ _ _ _ Ed Es Hok). }
+      destruct (IH D1a D2a st1b st2b ds' b1 st1' K'' HDa HRb Hnz Hsp Hok1b Er Ek HWr HGr)
         as (dsK' & D1' & D2' & st2' & Erun & Eb1 & HD2 & HR2 & Epost & Egain).
       exists (d2 :: dsi ++ dsK'), D1', D2', st2'.
       split; [|split; [exact Eb1|split; [exact HD2|split; [exact HR2|split]]]].
@@ -388,7 +425,7 @@ Theorem roundtrip_run regof like (hs : list hold_row) K T B1 st1 dsK bK stK dsT 
   keep_all dsK = Ok K' ->
   Forall (wcond B1 (rev (map (hold_tx like) hs))) (dsK ++ dsT) ->
   Forall (gooddelta regof) (dsK ++ dsT) ->
-  Forall spec_nz (K ++ T) -> Forall sell_pos K ->
+  Forall spec_nz (K ++ T) -> Forall sell_pos (K ++ T) -> st_ok st1 ->
   exists dsG dsK',
     run exact None (map (hold_tx like) hs ++ K' ++ T) = (dsG ++ dsK' ++ dsT, None)
     /\ map (fun d => (s_sh (d_post d), s_acb (d_post d))) dsG
@@ -396,7 +433,8 @@ Theorem roundtrip_run regof like (hs : list hold_row) K T B1 st1 dsK bK stK dsT 
     /\ map d_post dsK' = map d_post dsK /\ map d_gain dsK' = map d_gain dsK
     /\ Forall (fun d => exists g, In g (map (hold_tx like) hs ++ K') /\ d_sd d = t_sd g) (dsG ++ dsK').
 Proof.
-  intros Hnd HF Htot Hlp Hobs HK HT Hk HW HGd Hnz Hsp.
+  intros Hnd HF Htot Hlp Hobs HK HT Hk HW HGd Hnz Hsp0 Hok1.
+  apply Forall_app in Hsp0 as [Hsp Hspt].
   apply Forall_app in HW as [HWk HWt]. apply Forall_app in Hnz as [Hnzk Hnzt].
   apply Forall_app in HGd as [HGk HGt].
   assert (HF0 : Forall (fun h : hold_row => holding_ok (fst (fst h)) (snd (fst h)) /\ fresh st0 (fst (fst h))) hs).
@@ -415,10 +453,11 @@ Proof.
       assert (Hg : goodaf regof af') by reflexivity.
       rewrite (obs_fst_id st1 af af' eq_refl), (obs_fst_id stG af af' eq_refl), (Hgood af' Hg). reflexivity.
     - intros af Hg. rewrite (Hgood af Hg). reflexivity. }
-  destruct (kept_sim B1 B2 T regof K [] [] st1 stG dsK bK stK K' (Forall2_nil _) HR Hnzk Hsp HK Hk HWk HGk)
+  pose proof (run_part_ok K B1 st1 T dsK bK stK HK Hok1) as HokK.
+  destruct (kept_sim B1 B2 T regof K [] [] st1 stG dsK bK stK K' (Forall2_nil _) HR Hnzk Hsp Hok1 HK Hk HWk HGk)
     as (dsK' & D1' & D2' & st2' & Erun & Eb1 & HD2 & HR2 & Epost & Egain).
   cbn [app] in Erun. subst bK.
-  pose proof (later_sim B1 B2 regof T D1' D2' stK st2' dsT HD2 HR2 Hnzt HT HWt HGt) as ET.
+  pose proof (later_sim B1 B2 regof T D1' D2' stK st2' dsT HD2 HR2 Hnzt HokK Hspt HT HWt HGt) as ET.
   exists dsG, dsK'. split; [|split; [exact HobsG|split; [assumption|split; [assumption|]]]].
   2: { apply Forall_app. split.
        - eapply (run_part_sdP exact (fun z => exists g, In g (map (hold_tx like) hs ++ K') /\ z = t_sd g)); [|exact HG].
